@@ -27,8 +27,12 @@
 // API FORMS.  Every way the header lets a client request a sleep maps to the one specification
 // action Schedule/CoSleep(tp,..): sleep_until(tp), schedule(id, promise, tp), sleep_for(d) with d in
 // nanoseconds / microseconds (64 and 32 bit rep) / half milliseconds (ratio<1,2000>) / milliseconds
-// / seconds / minutes (and duration<double> seconds when the library accepts it: C12_FLOAT_SLEEP,
-// probed by the driver).  For sleep_for the virtual clock is set so that now + d == real(tp)
+// / seconds / minutes.  sleep_for(duration<double>) does not compile against the library at present
+// (system_clock::now() + duration<double> is a time_point with a floating point duration, which does
+// not convert implicitly to system_clock::time_point); the driver probes that with a one-line
+// translation unit and defines C12_FLOAT_SLEEP if it ever compiles: then q/512 s (exact in binary,
+// never a whole millisecond) joins the rotation.  A duration whose period is not a whole number of
+// nanoseconds (ratio<1,3>) does not compile for the same reason and cannot be exercised.  For sleep_for the virtual clock is set so that now + d == real(tp)
 // EXACTLY (manual mode: the clock is free, now := real(tp) - q*unit for a q that is not a whole
 // number of milliseconds where the unit allows; start mode: the clock is what it is, a form is used
 // only if real(tp) - now is a whole number of its unit).  The form rotates per call:
@@ -312,9 +316,6 @@ struct World {
         tm.load(sc.hdr.at("tm"));
         for (auto &x : sc.hdr.at("forms").l) {
             const Form *f = form_by_name(x.as_str());
-#ifndef C12_FLOAT_SLEEP
-            if (f && f->unit == 1953125) f = nullptr;
-#endif
             if (f) forms.push_back(f);
         }
         if (forms.empty()) forms.push_back(&FORMS[0]);
@@ -364,6 +365,9 @@ struct World {
         for (std::size_t i = 0; i < forms.size() && !f; i++) {
             const Form *g = forms[(std::size_t) (c + (long) i) % forms.size()];
             if (g->unit == 0) f = g;
+#ifndef C12_FLOAT_SLEEP
+            else if (g->unit == 1953125) continue;   // not accepted by the library: the next form takes its turn
+#endif
             else if (!start_mode) { f = g; q = pick_q(*g, c); }
             else if (!g->manual_only && (target - vt::now) % g->unit == 0) { f = g; q = (target - vt::now) / g->unit; }
         }
